@@ -167,6 +167,25 @@ class MiniEval:
                 return _BITOPS[type(e.op)](l, r)
             except TypeError:
                 raise _Fault('TypeError') from None
+        if isinstance(e, ast.Call) and isinstance(e.func, ast.Name) and e.func.id not in self.env and \
+                e.func.id in self.globals and isinstance(self.globals[e.func.id], type) and \
+                issubclass(self.globals[e.func.id], tuple) and hasattr(self.globals[e.func.id], '_fields'):
+            args_, kws_ = self._call_args(e)
+            try:
+                return self.globals[e.func.id](*args_, **kws_)
+            except TypeError:
+                raise _Fault('TypeError') from None
+        if isinstance(e, ast.Attribute) and not isinstance(e.value, ast.Name) or (
+                isinstance(e, ast.Attribute) and isinstance(e.value, ast.Name) and
+                isinstance(self.env.get(e.value.id), tuple) and hasattr(self.env.get(e.value.id), '_fields')):
+            if norm(e) not in self.env:
+                try:
+                    base_ = self.ev(e.value) if not (isinstance(e.value, ast.Attribute) and norm(e.value) not in self.env
+                                                     and not isinstance(e.value.value, ast.Name)) else None
+                except AnalysisError:
+                    base_ = None
+                if isinstance(base_, tuple) and hasattr(base_, '_fields') and e.attr in base_._fields:
+                    return getattr(base_, e.attr)
         if isinstance(e, ast.Attribute) and e.attr == '__func__':
             return self.ev(e.value)         # the function wrapped by a staticmethod / bound method
         if isinstance(e, ast.Lambda):
@@ -843,12 +862,38 @@ class ModuleGlobals(dict):
             return
         from .tables import fold, Unfoldable
         b = self._prog.lookup(self._mod, name)
+        if b is not None and b[0] == 'class' and any(
+                norm(x).endswith('NamedTuple') for x in b[1].node.bases):
+            # a NamedTuple class of the analysed module: its instances are plain (named) tuples
+            import collections
+            fields, defaults = [], []
+            for st in b[1].node.body:
+                if isinstance(st, ast.AnnAssign) and isinstance(st.target, ast.Name):
+                    fields.append(st.target.id)
+                    if st.value is not None:
+                        try:
+                            defaults.append(MiniEval('module constant', {}, globals_=self).ev(st.value))
+                        except (AnalysisError, _Fault, _Raised):
+                            fields = None
+                            break
+            if fields:
+                dict.__setitem__(self, name, collections.namedtuple(name, fields, defaults=defaults or None))
+                return
         if b is not None and b[0] == 'value':
             try:
                 dict.__setitem__(self, name, fold(self._prog, self._mod, b[1]))
                 return
             except (Unfoldable, AnalysisError, TypeError, ValueError):
                 pass
+            # not a literal table: a constant expression over pure builtins (frozenset(range(1, 8)) ...)
+            self._missing.add(name)         # (guards against self-reference while evaluating)
+            try:
+                val = MiniEval('module constant', {}, globals_=self).ev(b[1])
+            except (AnalysisError, _Fault, _Raised, RecursionError):
+                return
+            self._missing.discard(name)
+            dict.__setitem__(self, name, val)
+            return
         self._missing.add(name)
 
     def __contains__(self, name):
